@@ -1,0 +1,11 @@
+//go:build verif
+
+package ha
+
+// Verification seam for property C09 (stateful handler hammer in /verif): exported
+// wrapper around an unexported function, no behaviour of its own.
+
+// VerifC09ConnectToStream runs the real connectToStream (what standbyLoop calls in a loop):
+// attach to the partner's SSE stream, take the full snapshot, then read and dispatch stream
+// lines until the stream ends. The caller decides on which goroutine it runs.
+func (s *HASyncer) VerifC09ConnectToStream() error { return s.connectToStream() }
